@@ -42,7 +42,7 @@ THEOREMS = [
     "Okane.C06.C06_process", "Okane.C06.C06_process_outcome", "Okane.C06.C06_step",
     "Okane.C06.C06_zero_amount_exchange_rejected", "Okane.C06.C06_boundary_search", "Okane.C06.C06_parse_error_new",
     "Okane.C06.C06_line_number", "Okane.C06.C06_clip_iff", "Okane.C06.C06_clip", "Okane.C06.C06_error_context",
-    "Okane.C06.C06_prefix", "Okane.C06.C06_load",
+    "Okane.C06.C06_prefix", "Okane.C06.C06_load", "Okane.C06.C06_load_fake",
 ]
 
 TIMEOUT_MS = 10000
@@ -821,6 +821,25 @@ def replay_f9(chk):
     return failing
 
 
+def snapshot_binaries(chk):
+    """other checks may rebuild hx / okane while this one runs: work on private copies taken right after our own build."""
+    import shutil
+    global HX, OKANE
+    import common
+    d = os.path.join(WORK, chk.pid.lower(), "bin")
+    os.makedirs(d, exist_ok=True)
+    with common.Lock(".cargo.lock"):
+        for name in ("hx", "okane"):
+            src = os.path.join(common.TARGET, "debug", name)
+            dst = os.path.join(d, name)
+            tmp = dst + ".tmp%d" % os.getpid()
+            shutil.copy2(src, tmp)
+            os.replace(tmp, dst)
+    HX = os.path.join(d, "hx")
+    OKANE = os.path.join(d, "okane")
+    return HX, OKANE
+
+
 def run(chk):
     chk.rule = ("streams: (1) every prefix, cut at every character, of the 10 corpus ledgers (all syntax constructs, CRLF, multi-byte text, no "
                 "trailing newline) and of generated grammatical ledgers; (2) random strings over ledger tokens and arbitrary Unicode, and "
@@ -843,6 +862,7 @@ def run(chk):
     chk.inexact_cases = []
     if not standard_prologue(chk, THEOREMS):
         return
+    snapshot_binaries(chk)
     rng = chk.rng
     quick = chk.tier == "quick"
     R = Runner(chk)
